@@ -36,17 +36,25 @@ package parser
 // literal tokens carry their delimiters (established by the lexer, needed to strip them safely)
 
 
+// termination measure of the parser (C09): the bytes the lexer has not read yet plus the look-ahead tokens that are
+// not the end token.  Reading a token other than the end token moves the lexer forward, so shifting a token that is
+// not the end token lowers the measure; ppos + measure never grows while tokens other than the end token are consumed,
+// and with `progress` (ppos grows) every loop iteration and every recursion lowers the measure.
+//@ ghost pm(n Int, pos Int, nt Int, ct Int) Int = n - pos + ite(nt != const("lexer.EndToken"), 1, 0) + ite(ct != const("lexer.EndToken"), 1, 0)
+
 //@ func parser.advance
 //@   tags C04 C10 C09
 //@   assigns p.curr, p.next, p.lex, fam:G_pos, fam:G_toks
 //@   requires pi: p.curr.Type == tokT(ppos) && p.next.Type == tokT(ppos + 1) && tokOK(p.curr.Type, p.curr.Value) && tokOK(p.next.Type, p.next.Value) && 0 <= p.lex.position && p.lex.position <= len(p.lex.expression) && aligned(p.lex.expression) && boundAt(p.lex.expression, p.lex.position)
 //@   ensures shift: result == nil ==> p.curr == old(p.next)
+//@   ensures[C09] potential: result == nil && old(p.curr.Type) != const("lexer.EndToken") ==> 1 + pm(len(p.lex.expression), p.lex.position, p.next.Type, p.curr.Type) <= old(pm(len(p.lex.expression), p.lex.position, p.next.Type, p.curr.Type))
 //@   ensures tokens: result == nil ==> tokOK(p.curr.Type, p.curr.Value) && tokOK(p.next.Type, p.next.Value) && 0 <= p.lex.position && p.lex.position <= len(p.lex.expression) && aligned(p.lex.expression) && boundAt(p.lex.expression, p.lex.position)
 //@   defines result == nil ==> ppos == old(ppos) + 1 && toks() == old(toks()) && p.next.Type == tokT(ppos + 1)
 //@   defines result != nil ==> ppos == old(ppos) && toks() == old(toks())
 
 //@ func parser.advance2
 //@   tags C04 C10 C09
+//@   ensures[C09] potential: result == nil && old(p.curr.Type) != const("lexer.EndToken") && old(p.next.Type) != const("lexer.EndToken") ==> 2 + pm(len(p.lex.expression), p.lex.position, p.next.Type, p.curr.Type) <= old(pm(len(p.lex.expression), p.lex.position, p.next.Type, p.curr.Type))
 //@   assigns p.curr, p.next, p.lex, fam:G_pos, fam:G_toks
 //@   requires pi: p.curr.Type == tokT(ppos) && p.next.Type == tokT(ppos + 1) && tokOK(p.curr.Type, p.curr.Value) && tokOK(p.next.Type, p.next.Value) && 0 <= p.lex.position && p.lex.position <= len(p.lex.expression) && aligned(p.lex.expression) && boundAt(p.lex.expression, p.lex.position)
 //@   ensures tokens: result == nil ==> tokOK(p.curr.Type, p.curr.Value) && tokOK(p.next.Type, p.next.Value) && 0 <= p.lex.position && p.lex.position <= len(p.lex.expression) && aligned(p.lex.expression) && boundAt(p.lex.expression, p.lex.position)
@@ -72,6 +80,9 @@ package parser
 //@   assigns p.curr, p.next, p.lex, fam:G_pos, fam:G_toks
 //@   requires pi: p.curr.Type == tokT(ppos) && p.next.Type == tokT(ppos + 1) && tokOK(p.curr.Type, p.curr.Value) && tokOK(p.next.Type, p.next.Value) && 0 <= p.lex.position && p.lex.position <= len(p.lex.expression) && aligned(p.lex.expression) && boundAt(p.lex.expression, p.lex.position)
 //@   ensures pi: result1 == nil ==> p.curr.Type == tokT(ppos) && p.next.Type == tokT(ppos + 1) && tokOK(p.curr.Type, p.curr.Value) && tokOK(p.next.Type, p.next.Value) && 0 <= p.lex.position && p.lex.position <= len(p.lex.expression) && aligned(p.lex.expression) && boundAt(p.lex.expression, p.lex.position)
+//@   ensures[C09] potential: result1 == nil ==> ppos + pm(len(p.lex.expression), p.lex.position, p.next.Type, p.curr.Type) <= old(ppos + pm(len(p.lex.expression), p.lex.position, p.next.Type, p.curr.Type))
+//@   measure pm(len(p.lex.expression), p.lex.position, p.next.Type, p.curr.Type)
+//@   rank 12
 //@   ensures[C04] close: result1 == nil ==> tokT(ppos - 1) == const("lexer.CloseSqBraceToken") && ppos > old(ppos) + 1 && result0 != nil
 
 //@ func parser.expression
@@ -80,6 +91,9 @@ package parser
 //@   assigns p.curr, p.next, p.lex, fam:G_pos, fam:G_toks
 //@   requires pi: p.curr.Type == tokT(ppos) && p.next.Type == tokT(ppos + 1) && tokOK(p.curr.Type, p.curr.Value) && tokOK(p.next.Type, p.next.Value) && 0 <= p.lex.position && p.lex.position <= len(p.lex.expression) && aligned(p.lex.expression) && boundAt(p.lex.expression, p.lex.position)
 //@   ensures pi: result1 == nil ==> p.curr.Type == tokT(ppos) && p.next.Type == tokT(ppos + 1) && tokOK(p.curr.Type, p.curr.Value) && tokOK(p.next.Type, p.next.Value) && 0 <= p.lex.position && p.lex.position <= len(p.lex.expression) && aligned(p.lex.expression) && boundAt(p.lex.expression, p.lex.position)
+//@   ensures[C09] potential: result1 == nil ==> ppos + pm(len(p.lex.expression), p.lex.position, p.next.Type, p.curr.Type) <= old(ppos + pm(len(p.lex.expression), p.lex.position, p.next.Type, p.curr.Type))
+//@   measure pm(len(p.lex.expression), p.lex.position, p.next.Type, p.curr.Type)
+//@   rank 10
 //@   ensures[C09] progress: result1 == nil ==> ppos > old(ppos) && result0 != nil
 //@   ensures[C10] stop: result1 == nil ==> precOf(p.curr.Type) <= prec || !infixTok(p.curr.Type)
 //@   at advance#* assert[C10] tighter: precOf(p.curr.Type) > prec
@@ -108,6 +122,8 @@ package parser
 //@   at projection#4 assert[C01 C17] extends.objwild: precOf(const("lexer.ObjectWildcardToken")) > arg1
 //@   at projection#4 assert[C01 C17] extends.arraywild: precOf(const("lexer.ArrayWildcardToken")) > arg1
 //@   loop 1
+//@     invariant[C09] potential: ppos + pm(len(p.lex.expression), p.lex.position, p.next.Type, p.curr.Type) <= old(ppos + pm(len(p.lex.expression), p.lex.position, p.next.Type, p.curr.Type))
+//@     decreases pm(len(p.lex.expression), p.lex.position, p.next.Type, p.curr.Type)
 //@     invariant p.curr.Type == tokT(ppos) && p.next.Type == tokT(ppos + 1)
 //@     invariant tokOK(p.curr.Type, p.curr.Value) && tokOK(p.next.Type, p.next.Value)
 //@     invariant 0 <= p.lex.position && p.lex.position <= len(p.lex.expression) && aligned(p.lex.expression) && boundAt(p.lex.expression, p.lex.position)
@@ -122,6 +138,9 @@ package parser
 //@   assigns p.curr, p.next, p.lex, fam:G_pos, fam:G_toks
 //@   requires pi: p.curr.Type == tokT(ppos) && p.next.Type == tokT(ppos + 1) && tokOK(p.curr.Type, p.curr.Value) && tokOK(p.next.Type, p.next.Value) && 0 <= p.lex.position && p.lex.position <= len(p.lex.expression) && aligned(p.lex.expression) && boundAt(p.lex.expression, p.lex.position)
 //@   ensures pi: result1 == nil ==> p.curr.Type == tokT(ppos) && p.next.Type == tokT(ppos + 1) && tokOK(p.curr.Type, p.curr.Value) && tokOK(p.next.Type, p.next.Value) && 0 <= p.lex.position && p.lex.position <= len(p.lex.expression) && aligned(p.lex.expression) && boundAt(p.lex.expression, p.lex.position)
+//@   ensures[C09] potential: result1 == nil ==> ppos + pm(len(p.lex.expression), p.lex.position, p.next.Type, p.curr.Type) <= old(ppos + pm(len(p.lex.expression), p.lex.position, p.next.Type, p.curr.Type))
+//@   measure pm(len(p.lex.expression), p.lex.position, p.next.Type, p.curr.Type)
+//@   rank 5
 //@   ensures[C09] progress: result1 == nil ==> ppos > old(ppos) && result0 != nil
 //@   at expression#* assert[C10] prefix: arg1 == 1 || arg1 >= precOf(const("lexer.MultiplyToken"))
 //@   at projection#1 assert[C01 C17] extends.dot: precOf(const("lexer.DotToken")) > arg1
@@ -152,10 +171,15 @@ package parser
 //@   assigns p.curr, p.next, p.lex, fam:G_pos, fam:G_toks
 //@   requires pi: p.curr.Type == tokT(ppos) && p.next.Type == tokT(ppos + 1) && tokOK(p.curr.Type, p.curr.Value) && tokOK(p.next.Type, p.next.Value) && 0 <= p.lex.position && p.lex.position <= len(p.lex.expression) && aligned(p.lex.expression) && boundAt(p.lex.expression, p.lex.position)
 //@   ensures pi: result1 == nil ==> p.curr.Type == tokT(ppos) && p.next.Type == tokT(ppos + 1) && tokOK(p.curr.Type, p.curr.Value) && tokOK(p.next.Type, p.next.Value) && 0 <= p.lex.position && p.lex.position <= len(p.lex.expression) && aligned(p.lex.expression) && boundAt(p.lex.expression, p.lex.position)
+//@   ensures[C09] potential: result1 == nil ==> ppos + pm(len(p.lex.expression), p.lex.position, p.next.Type, p.curr.Type) <= old(ppos + pm(len(p.lex.expression), p.lex.position, p.next.Type, p.curr.Type))
+//@   measure pm(len(p.lex.expression), p.lex.position, p.next.Type, p.curr.Type)
+//@   rank 11
 //@   ensures[C09] progress: result1 == nil && result0 != nil ==> ppos > old(ppos)
 //@   ensures none: result1 == nil && result0 == nil ==> ppos == old(ppos) && toks() == old(toks())
 //@   ensures[C01 C17] rhs.absent: result1 == nil && result0 == nil ==> !selectorTok(tokT(ppos))
 //@   loop 1
+//@     invariant[C09] potential: ppos + pm(len(p.lex.expression), p.lex.position, p.next.Type, p.curr.Type) <= old(ppos + pm(len(p.lex.expression), p.lex.position, p.next.Type, p.curr.Type))
+//@     decreases pm(len(p.lex.expression), p.lex.position, p.next.Type, p.curr.Type)
 //@     invariant p.curr.Type == tokT(ppos) && p.next.Type == tokT(ppos + 1)
 //@     invariant tokOK(p.curr.Type, p.curr.Value) && tokOK(p.next.Type, p.next.Value)
 //@     invariant 0 <= p.lex.position && p.lex.position <= len(p.lex.expression) && aligned(p.lex.expression) && boundAt(p.lex.expression, p.lex.position)
@@ -168,6 +192,9 @@ package parser
 //@   assigns p.curr, p.next, p.lex, fam:G_pos, fam:G_toks
 //@   requires pi: p.curr.Type == tokT(ppos) && p.next.Type == tokT(ppos + 1) && tokOK(p.curr.Type, p.curr.Value) && tokOK(p.next.Type, p.next.Value) && 0 <= p.lex.position && p.lex.position <= len(p.lex.expression) && aligned(p.lex.expression) && boundAt(p.lex.expression, p.lex.position)
 //@   ensures pi: result2 == nil ==> p.curr.Type == tokT(ppos) && p.next.Type == tokT(ppos + 1) && tokOK(p.curr.Type, p.curr.Value) && tokOK(p.next.Type, p.next.Value) && 0 <= p.lex.position && p.lex.position <= len(p.lex.expression) && aligned(p.lex.expression) && boundAt(p.lex.expression, p.lex.position)
+//@   ensures[C09] potential: result2 == nil ==> ppos + pm(len(p.lex.expression), p.lex.position, p.next.Type, p.curr.Type) <= old(ppos + pm(len(p.lex.expression), p.lex.position, p.next.Type, p.curr.Type))
+//@   measure pm(len(p.lex.expression), p.lex.position, p.next.Type, p.curr.Type)
+//@   rank 12
 //@   ensures[C04] close: result2 == nil ==> tokT(ppos - 1) == const("lexer.CloseSqBraceToken") && ppos > old(ppos) && result0 != nil
 //@   ensures[C12] start.given.SliceNode: result2 == nil && isType(result0, "*github.com/woodsbury/jmespath/internal/parser.SliceNode") && old(p.curr.Type) == const("lexer.IntegerLiteralToken") ==> as(result0, "parser.SliceNode").Start == atoiVal(old(p.curr.Value))
 //@   ensures[C12] start.absent.SliceNode: result2 == nil && isType(result0, "*github.com/woodsbury/jmespath/internal/parser.SliceNode") && old(p.curr.Type) == const("lexer.ColonToken") ==> as(result0, "parser.SliceNode").Start == ite(1 < 0, 9223372036854775807, 0)
@@ -191,8 +218,13 @@ package parser
 //@   assigns p.curr, p.next, p.lex, fam:G_pos, fam:G_toks
 //@   requires pi: p.curr.Type == tokT(ppos) && p.next.Type == tokT(ppos + 1) && tokOK(p.curr.Type, p.curr.Value) && tokOK(p.next.Type, p.next.Value) && 0 <= p.lex.position && p.lex.position <= len(p.lex.expression) && aligned(p.lex.expression) && boundAt(p.lex.expression, p.lex.position)
 //@   ensures pi: result1 == nil ==> p.curr.Type == tokT(ppos) && p.next.Type == tokT(ppos + 1) && tokOK(p.curr.Type, p.curr.Value) && tokOK(p.next.Type, p.next.Value) && 0 <= p.lex.position && p.lex.position <= len(p.lex.expression) && aligned(p.lex.expression) && boundAt(p.lex.expression, p.lex.position)
+//@   ensures[C09] potential: result1 == nil ==> ppos + pm(len(p.lex.expression), p.lex.position, p.next.Type, p.curr.Type) <= old(ppos + pm(len(p.lex.expression), p.lex.position, p.next.Type, p.curr.Type))
+//@   measure pm(len(p.lex.expression), p.lex.position, p.next.Type, p.curr.Type)
+//@   rank 12
 //@   ensures[C04] close: result1 == nil ==> tokT(ppos - 1) == const("lexer.CloseSqBraceToken") && ppos > old(ppos) && result0 != nil
 //@   loop 1
+//@     invariant[C09] potential: ppos + pm(len(p.lex.expression), p.lex.position, p.next.Type, p.curr.Type) <= old(ppos + pm(len(p.lex.expression), p.lex.position, p.next.Type, p.curr.Type))
+//@     decreases pm(len(p.lex.expression), p.lex.position, p.next.Type, p.curr.Type)
 //@     invariant[C04 C01 C17] linear: pendingOnly()
 //@     invariant p.curr.Type == tokT(ppos) && p.next.Type == tokT(ppos + 1) && tokOK(p.curr.Type, p.curr.Value) && tokOK(p.next.Type, p.next.Value) && 0 <= p.lex.position && p.lex.position <= len(p.lex.expression) && aligned(p.lex.expression) && boundAt(p.lex.expression, p.lex.position) && fresh(fields)
 //@     invariant forall k Int :: 0 <= k && k < len(fields) ==> fields[k] != nil
@@ -204,9 +236,14 @@ package parser
 //@   assigns p.curr, p.next, p.lex, fam:G_pos, fam:G_toks
 //@   requires pi: p.curr.Type == tokT(ppos) && p.next.Type == tokT(ppos + 1) && tokOK(p.curr.Type, p.curr.Value) && tokOK(p.next.Type, p.next.Value) && 0 <= p.lex.position && p.lex.position <= len(p.lex.expression) && aligned(p.lex.expression) && boundAt(p.lex.expression, p.lex.position)
 //@   ensures pi: result1 == nil ==> p.curr.Type == tokT(ppos) && p.next.Type == tokT(ppos + 1) && tokOK(p.curr.Type, p.curr.Value) && tokOK(p.next.Type, p.next.Value) && 0 <= p.lex.position && p.lex.position <= len(p.lex.expression) && aligned(p.lex.expression) && boundAt(p.lex.expression, p.lex.position)
+//@   ensures[C09] potential: result1 == nil ==> ppos + pm(len(p.lex.expression), p.lex.position, p.next.Type, p.curr.Type) <= old(ppos + pm(len(p.lex.expression), p.lex.position, p.next.Type, p.curr.Type))
+//@   measure pm(len(p.lex.expression), p.lex.position, p.next.Type, p.curr.Type)
+//@   rank 12
 //@   ensures[C04] close: result1 == nil ==> tokT(ppos - 1) == const("lexer.CloseBraceToken") && ppos > old(ppos) && result0 != nil
 //@   at advance2#1 assert[C04] key: p.curr.Type == const("lexer.QuotedIdentifierToken") || p.curr.Type == const("lexer.UnquotedIdentifierToken")
 //@   loop 1
+//@     invariant[C09] potential: ppos + pm(len(p.lex.expression), p.lex.position, p.next.Type, p.curr.Type) <= old(ppos + pm(len(p.lex.expression), p.lex.position, p.next.Type, p.curr.Type))
+//@     decreases pm(len(p.lex.expression), p.lex.position, p.next.Type, p.curr.Type)
 //@     invariant[C04 C01 C17] linear: pendingOnly()
 //@     invariant fresh(fields) && fields != nil && (forall k Int :: hasKey(fields, k) ==> getKey(fields, k) != nil)
 //@     invariant p.curr.Type == tokT(ppos) && p.next.Type == tokT(ppos + 1) && tokOK(p.curr.Type, p.curr.Value) && tokOK(p.next.Type, p.next.Value) && 0 <= p.lex.position && p.lex.position <= len(p.lex.expression) && aligned(p.lex.expression) && boundAt(p.lex.expression, p.lex.position)
@@ -218,10 +255,15 @@ package parser
 //@   assigns p.curr, p.next, p.lex, fam:G_pos, fam:G_toks
 //@   requires pi: p.curr.Type == tokT(ppos) && p.next.Type == tokT(ppos + 1) && tokOK(p.curr.Type, p.curr.Value) && tokOK(p.next.Type, p.next.Value) && 0 <= p.lex.position && p.lex.position <= len(p.lex.expression) && aligned(p.lex.expression) && boundAt(p.lex.expression, p.lex.position)
 //@   ensures pi: result1 == nil ==> p.curr.Type == tokT(ppos) && p.next.Type == tokT(ppos + 1) && tokOK(p.curr.Type, p.curr.Value) && tokOK(p.next.Type, p.next.Value) && 0 <= p.lex.position && p.lex.position <= len(p.lex.expression) && aligned(p.lex.expression) && boundAt(p.lex.expression, p.lex.position)
+//@   ensures[C09] potential: result1 == nil ==> ppos + pm(len(p.lex.expression), p.lex.position, p.next.Type, p.curr.Type) <= old(ppos + pm(len(p.lex.expression), p.lex.position, p.next.Type, p.curr.Type))
+//@   measure pm(len(p.lex.expression), p.lex.position, p.next.Type, p.curr.Type)
+//@   rank 12
 //@   ensures[C09] progress: result1 == nil ==> ppos > old(ppos) && result0 != nil
 //@   at advance2#1 assert[C04 C19] binding: p.curr.Type == const("lexer.VariableToken") && p.next.Type == const("lexer.AssignToken")
 //@   ensures[C19 C10] body.extends: result1 == nil ==> precOf(tokT(ppos)) <= 1 || !infixTok(tokT(ppos))
 //@   loop 1
+//@     invariant[C09] potential: ppos + pm(len(p.lex.expression), p.lex.position, p.next.Type, p.curr.Type) <= old(ppos + pm(len(p.lex.expression), p.lex.position, p.next.Type, p.curr.Type))
+//@     decreases pm(len(p.lex.expression), p.lex.position, p.next.Type, p.curr.Type)
 //@     invariant[C04 C01 C17] linear: pendingOnly()
 //@     invariant fresh(variables) && variables != nil && (forall k Int :: hasKey(variables, k) ==> getKey(variables, k) != nil)
 //@     invariant p.curr.Type == tokT(ppos) && p.next.Type == tokT(ppos + 1) && tokOK(p.curr.Type, p.curr.Value) && tokOK(p.next.Type, p.next.Value) && 0 <= p.lex.position && p.lex.position <= len(p.lex.expression) && aligned(p.lex.expression) && boundAt(p.lex.expression, p.lex.position)
@@ -238,6 +280,9 @@ package parser
 //@   assigns p.curr, p.next, p.lex, fam:G_pos, fam:G_toks
 //@   requires pi: p.curr.Type == tokT(ppos) && p.next.Type == tokT(ppos + 1) && tokOK(p.curr.Type, p.curr.Value) && tokOK(p.next.Type, p.next.Value) && 0 <= p.lex.position && p.lex.position <= len(p.lex.expression) && aligned(p.lex.expression) && boundAt(p.lex.expression, p.lex.position)
 //@   ensures pi: result1 == nil ==> p.curr.Type == tokT(ppos) && p.next.Type == tokT(ppos + 1) && tokOK(p.curr.Type, p.curr.Value) && tokOK(p.next.Type, p.next.Value) && 0 <= p.lex.position && p.lex.position <= len(p.lex.expression) && aligned(p.lex.expression) && boundAt(p.lex.expression, p.lex.position)
+//@   ensures[C09] potential: result1 == nil ==> ppos + pm(len(p.lex.expression), p.lex.position, p.next.Type, p.curr.Type) <= old(ppos + pm(len(p.lex.expression), p.lex.position, p.next.Type, p.curr.Type))
+//@   measure pm(len(p.lex.expression), p.lex.position, p.next.Type, p.curr.Type)
+//@   rank 12
 //@   ensures[C04] close: result1 == nil ==> tokT(ppos - 1) == const("lexer.CloseParenToken") && ppos > old(ppos) && result0 != nil
 //@   ensures[C02 C08] noargs: old(p.curr.Type) == const("lexer.CloseParenToken") ==> isType(result1, "*github.com/woodsbury/jmespath/internal/parser.InvalidFunctionCallError")
 
@@ -249,6 +294,9 @@ package parser
 //@   assigns p.curr, p.next, p.lex, fam:G_pos, fam:G_toks
 //@   requires pi: p.curr.Type == tokT(ppos) && p.next.Type == tokT(ppos + 1) && tokOK(p.curr.Type, p.curr.Value) && tokOK(p.next.Type, p.next.Value) && 0 <= p.lex.position && p.lex.position <= len(p.lex.expression) && aligned(p.lex.expression) && boundAt(p.lex.expression, p.lex.position)
 //@   ensures pi: result2 == nil ==> p.curr.Type == tokT(ppos) && p.next.Type == tokT(ppos + 1) && tokOK(p.curr.Type, p.curr.Value) && tokOK(p.next.Type, p.next.Value) && 0 <= p.lex.position && p.lex.position <= len(p.lex.expression) && aligned(p.lex.expression) && boundAt(p.lex.expression, p.lex.position)
+//@   ensures[C09] potential: result2 == nil ==> ppos + pm(len(p.lex.expression), p.lex.position, p.next.Type, p.curr.Type) <= old(ppos + pm(len(p.lex.expression), p.lex.position, p.next.Type, p.curr.Type))
+//@   measure pm(len(p.lex.expression), p.lex.position, p.next.Type, p.curr.Type)
+//@   rank 12
 //@   ensures[C03] args: result2 == nil ==> result0 != nil
 //@   ensures[C04] close: result2 == nil ==> tokT(ppos - 1) == const("lexer.CloseParenToken") && ppos > old(ppos) && result0 != nil
 //@   ensures[C02 C08] noargs: old(p.curr.Type) == const("lexer.CloseParenToken") ==> isType(result2, "*github.com/woodsbury/jmespath/internal/parser.InvalidFunctionCallError")
@@ -261,6 +309,9 @@ package parser
 //@   assigns p.curr, p.next, p.lex, fam:G_pos, fam:G_toks
 //@   requires pi: p.curr.Type == tokT(ppos) && p.next.Type == tokT(ppos + 1) && tokOK(p.curr.Type, p.curr.Value) && tokOK(p.next.Type, p.next.Value) && 0 <= p.lex.position && p.lex.position <= len(p.lex.expression) && aligned(p.lex.expression) && boundAt(p.lex.expression, p.lex.position)
 //@   ensures pi: result2 == nil ==> p.curr.Type == tokT(ppos) && p.next.Type == tokT(ppos + 1) && tokOK(p.curr.Type, p.curr.Value) && tokOK(p.next.Type, p.next.Value) && 0 <= p.lex.position && p.lex.position <= len(p.lex.expression) && aligned(p.lex.expression) && boundAt(p.lex.expression, p.lex.position)
+//@   ensures[C09] potential: result2 == nil ==> ppos + pm(len(p.lex.expression), p.lex.position, p.next.Type, p.curr.Type) <= old(ppos + pm(len(p.lex.expression), p.lex.position, p.next.Type, p.curr.Type))
+//@   measure pm(len(p.lex.expression), p.lex.position, p.next.Type, p.curr.Type)
+//@   rank 12
 //@   ensures[C03] args: result2 == nil ==> result0 != nil && result1 != nil
 //@   ensures[C04] close: result2 == nil ==> tokT(ppos - 1) == const("lexer.CloseParenToken") && ppos > old(ppos) && result0 != nil
 //@   ensures[C02 C08] noargs: old(p.curr.Type) == const("lexer.CloseParenToken") ==> isType(result2, "*github.com/woodsbury/jmespath/internal/parser.InvalidFunctionCallError")
@@ -273,6 +324,9 @@ package parser
 //@   assigns p.curr, p.next, p.lex, fam:G_pos, fam:G_toks
 //@   requires pi: p.curr.Type == tokT(ppos) && p.next.Type == tokT(ppos + 1) && tokOK(p.curr.Type, p.curr.Value) && tokOK(p.next.Type, p.next.Value) && 0 <= p.lex.position && p.lex.position <= len(p.lex.expression) && aligned(p.lex.expression) && boundAt(p.lex.expression, p.lex.position)
 //@   ensures pi: result2 == nil ==> p.curr.Type == tokT(ppos) && p.next.Type == tokT(ppos + 1) && tokOK(p.curr.Type, p.curr.Value) && tokOK(p.next.Type, p.next.Value) && 0 <= p.lex.position && p.lex.position <= len(p.lex.expression) && aligned(p.lex.expression) && boundAt(p.lex.expression, p.lex.position)
+//@   ensures[C09] potential: result2 == nil ==> ppos + pm(len(p.lex.expression), p.lex.position, p.next.Type, p.curr.Type) <= old(ppos + pm(len(p.lex.expression), p.lex.position, p.next.Type, p.curr.Type))
+//@   measure pm(len(p.lex.expression), p.lex.position, p.next.Type, p.curr.Type)
+//@   rank 12
 //@   ensures[C03] args: result2 == nil ==> result0 != nil && result1 != nil
 //@   ensures[C04] close: result2 == nil ==> tokT(ppos - 1) == const("lexer.CloseParenToken") && ppos > old(ppos) && result0 != nil
 //@   ensures[C02 C08] noargs: old(p.curr.Type) == const("lexer.CloseParenToken") ==> isType(result2, "*github.com/woodsbury/jmespath/internal/parser.InvalidFunctionCallError")
@@ -285,6 +339,9 @@ package parser
 //@   assigns p.curr, p.next, p.lex, fam:G_pos, fam:G_toks
 //@   requires pi: p.curr.Type == tokT(ppos) && p.next.Type == tokT(ppos + 1) && tokOK(p.curr.Type, p.curr.Value) && tokOK(p.next.Type, p.next.Value) && 0 <= p.lex.position && p.lex.position <= len(p.lex.expression) && aligned(p.lex.expression) && boundAt(p.lex.expression, p.lex.position)
 //@   ensures pi: result2 == nil ==> p.curr.Type == tokT(ppos) && p.next.Type == tokT(ppos + 1) && tokOK(p.curr.Type, p.curr.Value) && tokOK(p.next.Type, p.next.Value) && 0 <= p.lex.position && p.lex.position <= len(p.lex.expression) && aligned(p.lex.expression) && boundAt(p.lex.expression, p.lex.position)
+//@   ensures[C09] potential: result2 == nil ==> ppos + pm(len(p.lex.expression), p.lex.position, p.next.Type, p.curr.Type) <= old(ppos + pm(len(p.lex.expression), p.lex.position, p.next.Type, p.curr.Type))
+//@   measure pm(len(p.lex.expression), p.lex.position, p.next.Type, p.curr.Type)
+//@   rank 12
 //@   ensures[C03] args: result2 == nil ==> result0 != nil && result1 != nil
 //@   ensures[C04] close: result2 == nil ==> tokT(ppos - 1) == const("lexer.CloseParenToken") && ppos > old(ppos) && result0 != nil
 //@   ensures[C02 C08] noargs: old(p.curr.Type) == const("lexer.CloseParenToken") ==> isType(result2, "*github.com/woodsbury/jmespath/internal/parser.InvalidFunctionCallError")
@@ -297,6 +354,9 @@ package parser
 //@   assigns p.curr, p.next, p.lex, fam:G_pos, fam:G_toks
 //@   requires pi: p.curr.Type == tokT(ppos) && p.next.Type == tokT(ppos + 1) && tokOK(p.curr.Type, p.curr.Value) && tokOK(p.next.Type, p.next.Value) && 0 <= p.lex.position && p.lex.position <= len(p.lex.expression) && aligned(p.lex.expression) && boundAt(p.lex.expression, p.lex.position)
 //@   ensures pi: result3 == nil ==> p.curr.Type == tokT(ppos) && p.next.Type == tokT(ppos + 1) && tokOK(p.curr.Type, p.curr.Value) && tokOK(p.next.Type, p.next.Value) && 0 <= p.lex.position && p.lex.position <= len(p.lex.expression) && aligned(p.lex.expression) && boundAt(p.lex.expression, p.lex.position)
+//@   ensures[C09] potential: result3 == nil ==> ppos + pm(len(p.lex.expression), p.lex.position, p.next.Type, p.curr.Type) <= old(ppos + pm(len(p.lex.expression), p.lex.position, p.next.Type, p.curr.Type))
+//@   measure pm(len(p.lex.expression), p.lex.position, p.next.Type, p.curr.Type)
+//@   rank 12
 //@   ensures[C03] args: result3 == nil ==> result0 != nil && result1 != nil
 //@   ensures[C04] close: result3 == nil ==> tokT(ppos - 1) == const("lexer.CloseParenToken") && ppos > old(ppos) && result0 != nil
 //@   ensures[C02 C08] noargs: old(p.curr.Type) == const("lexer.CloseParenToken") ==> isType(result3, "*github.com/woodsbury/jmespath/internal/parser.InvalidFunctionCallError")
@@ -309,6 +369,9 @@ package parser
 //@   assigns p.curr, p.next, p.lex, fam:G_pos, fam:G_toks
 //@   requires pi: p.curr.Type == tokT(ppos) && p.next.Type == tokT(ppos + 1) && tokOK(p.curr.Type, p.curr.Value) && tokOK(p.next.Type, p.next.Value) && 0 <= p.lex.position && p.lex.position <= len(p.lex.expression) && aligned(p.lex.expression) && boundAt(p.lex.expression, p.lex.position)
 //@   ensures pi: result4 == nil ==> p.curr.Type == tokT(ppos) && p.next.Type == tokT(ppos + 1) && tokOK(p.curr.Type, p.curr.Value) && tokOK(p.next.Type, p.next.Value) && 0 <= p.lex.position && p.lex.position <= len(p.lex.expression) && aligned(p.lex.expression) && boundAt(p.lex.expression, p.lex.position)
+//@   ensures[C09] potential: result4 == nil ==> ppos + pm(len(p.lex.expression), p.lex.position, p.next.Type, p.curr.Type) <= old(ppos + pm(len(p.lex.expression), p.lex.position, p.next.Type, p.curr.Type))
+//@   measure pm(len(p.lex.expression), p.lex.position, p.next.Type, p.curr.Type)
+//@   rank 12
 //@   ensures[C03] args: result4 == nil ==> result0 != nil && result1 != nil && (result3 != nil ==> result2 != nil)
 //@   ensures[C04] close: result4 == nil ==> tokT(ppos - 1) == const("lexer.CloseParenToken") && ppos > old(ppos) && result0 != nil
 //@   ensures[C02 C08] noargs: old(p.curr.Type) == const("lexer.CloseParenToken") ==> isType(result4, "*github.com/woodsbury/jmespath/internal/parser.InvalidFunctionCallError")
@@ -321,6 +384,9 @@ package parser
 //@   assigns p.curr, p.next, p.lex, fam:G_pos, fam:G_toks
 //@   requires pi: p.curr.Type == tokT(ppos) && p.next.Type == tokT(ppos + 1) && tokOK(p.curr.Type, p.curr.Value) && tokOK(p.next.Type, p.next.Value) && 0 <= p.lex.position && p.lex.position <= len(p.lex.expression) && aligned(p.lex.expression) && boundAt(p.lex.expression, p.lex.position)
 //@   ensures pi: result4 == nil ==> p.curr.Type == tokT(ppos) && p.next.Type == tokT(ppos + 1) && tokOK(p.curr.Type, p.curr.Value) && tokOK(p.next.Type, p.next.Value) && 0 <= p.lex.position && p.lex.position <= len(p.lex.expression) && aligned(p.lex.expression) && boundAt(p.lex.expression, p.lex.position)
+//@   ensures[C09] potential: result4 == nil ==> ppos + pm(len(p.lex.expression), p.lex.position, p.next.Type, p.curr.Type) <= old(ppos + pm(len(p.lex.expression), p.lex.position, p.next.Type, p.curr.Type))
+//@   measure pm(len(p.lex.expression), p.lex.position, p.next.Type, p.curr.Type)
+//@   rank 12
 //@   ensures[C03] args: result4 == nil ==> result0 != nil && result1 != nil && result2 != nil
 //@   ensures[C04] close: result4 == nil ==> tokT(ppos - 1) == const("lexer.CloseParenToken") && ppos > old(ppos) && result0 != nil
 //@   ensures[C02 C08] noargs: old(p.curr.Type) == const("lexer.CloseParenToken") ==> isType(result4, "*github.com/woodsbury/jmespath/internal/parser.InvalidFunctionCallError")
@@ -333,10 +399,15 @@ package parser
 //@   assigns p.curr, p.next, p.lex, fam:G_pos, fam:G_toks
 //@   requires pi: p.curr.Type == tokT(ppos) && p.next.Type == tokT(ppos + 1) && tokOK(p.curr.Type, p.curr.Value) && tokOK(p.next.Type, p.next.Value) && 0 <= p.lex.position && p.lex.position <= len(p.lex.expression) && aligned(p.lex.expression) && boundAt(p.lex.expression, p.lex.position)
 //@   ensures pi: result1 == nil ==> p.curr.Type == tokT(ppos) && p.next.Type == tokT(ppos + 1) && tokOK(p.curr.Type, p.curr.Value) && tokOK(p.next.Type, p.next.Value) && 0 <= p.lex.position && p.lex.position <= len(p.lex.expression) && aligned(p.lex.expression) && boundAt(p.lex.expression, p.lex.position)
+//@   ensures[C09] potential: result1 == nil ==> ppos + pm(len(p.lex.expression), p.lex.position, p.next.Type, p.curr.Type) <= old(ppos + pm(len(p.lex.expression), p.lex.position, p.next.Type, p.curr.Type))
+//@   measure pm(len(p.lex.expression), p.lex.position, p.next.Type, p.curr.Type)
+//@   rank 12
 //@   ensures[C04] close: result1 == nil ==> tokT(ppos - 1) == const("lexer.CloseParenToken") && ppos > old(ppos) && len(result0) >= 1
 //@   ensures[C03] args: result1 == nil ==> (forall k Int :: 0 <= k && k < len(result0) ==> result0[k] != nil)
 //@   ensures[C02 C08] noargs: old(p.curr.Type) == const("lexer.CloseParenToken") ==> isType(result1, "*github.com/woodsbury/jmespath/internal/parser.InvalidFunctionCallError")
 //@   loop 1
+//@     invariant[C09] potential: ppos + pm(len(p.lex.expression), p.lex.position, p.next.Type, p.curr.Type) <= old(ppos + pm(len(p.lex.expression), p.lex.position, p.next.Type, p.curr.Type))
+//@     decreases pm(len(p.lex.expression), p.lex.position, p.next.Type, p.curr.Type)
 //@     invariant[C04 C01 C17] linear: pendingOnly()
 //@     invariant p.curr.Type == tokT(ppos) && p.next.Type == tokT(ppos + 1) && tokOK(p.curr.Type, p.curr.Value) && tokOK(p.next.Type, p.next.Value) && 0 <= p.lex.position && p.lex.position <= len(p.lex.expression) && aligned(p.lex.expression) && boundAt(p.lex.expression, p.lex.position) && fresh(nodes)
 //@     invariant forall k Int :: 0 <= k && k < len(nodes) ==> nodes[k] != nil
@@ -348,7 +419,11 @@ package parser
 //@   assigns p.curr, p.next, p.lex, fam:G_pos, fam:G_toks
 //@   requires pi: p.curr.Type == tokT(ppos) && p.next.Type == tokT(ppos + 1) && tokOK(p.curr.Type, p.curr.Value) && tokOK(p.next.Type, p.next.Value) && 0 <= p.lex.position && p.lex.position <= len(p.lex.expression) && aligned(p.lex.expression) && boundAt(p.lex.expression, p.lex.position)
 //@   requires call: p.next.Type == const("lexer.OpenParenToken")
+//@   requires[C09] name: p.curr.Type == const("lexer.UnquotedIdentifierToken")
 //@   ensures pi: result1 == nil ==> p.curr.Type == tokT(ppos) && p.next.Type == tokT(ppos + 1) && tokOK(p.curr.Type, p.curr.Value) && tokOK(p.next.Type, p.next.Value) && 0 <= p.lex.position && p.lex.position <= len(p.lex.expression) && aligned(p.lex.expression) && boundAt(p.lex.expression, p.lex.position)
+//@   ensures[C09] potential: result1 == nil ==> ppos + pm(len(p.lex.expression), p.lex.position, p.next.Type, p.curr.Type) <= old(ppos + pm(len(p.lex.expression), p.lex.position, p.next.Type, p.curr.Type))
+//@   measure pm(len(p.lex.expression), p.lex.position, p.next.Type, p.curr.Type)
+//@   rank 4
 //@   ensures[C09] progress: result1 == nil ==> ppos > old(ppos) + 1 && result0 != nil
 //@   ensures[C04] close: result1 == nil ==> tokT(ppos - 1) == const("lexer.CloseParenToken")
 //@   ensures[C02] table.abs: result1 == nil && old(p.curr.Value) == "abs" ==> isType(result0, "*github.com/woodsbury/jmespath/internal/parser.AbsNode")
@@ -413,6 +488,7 @@ package parser
 //@   ensures[C16] plain: (forall k Int :: {byteOf(s, k)} 1 <= k && k < len(s) - 1 ==> byteOf(s, k) != 92) ==> result1 == nil && isType(result0, "*github.com/woodsbury/jmespath/internal/parser.StringNode") && as(result0, "parser.StringNode").Value == s[1:len(s) - 1]
 //@   ensures[C16] shrinks: result1 == nil && isType(result0, "*github.com/woodsbury/jmespath/internal/parser.StringNode") ==> len(as(result0, "parser.StringNode").Value) <= len(s) - 2
 //@   loop 1
+//@     decreases len(v)
 //@     invariant len(v) >= 1
 //@     invariant[C16] written: bldLen(b) + len(v) + 1 <= len(s) - 2
 //@     invariant[C11] text.b: bldOk(b)
@@ -541,6 +617,7 @@ package parser
 //@   ensures[C16] plain: (forall k Int :: {byteOf(s, k)} 1 <= k && k < len(s) - 1 ==> byteOf(s, k) != 92) ==> result1 == nil && result0 == s[1:len(s) - 1]
 //@   note it_str is the string the loop ranges over (v[1:5], v[2:6]); in loop 3 the two bytes in front of it are the `\u` of the second escape
 //@   loop 1
+//@     decreases len(v)
 //@     invariant len(v) >= 1
 //@     invariant[C11] text.b: bldOk(b)
 //@     invariant[C11] text.v: aligned(v)
